@@ -83,3 +83,36 @@ Example sx_p_tight_err : sx_res (unmarshal_ps 66 false (nest 64 (TBase BByte)) (
 Proof. vm_compute. reflexivity. Qed.
 Example sx_p_proj : fst (unmarshal_ps 66 false sx_ty (sx_ctx sx_buf 3 2)) = unmarshal_p 66 false sx_ty (sx_ctx sx_buf 3 2).
 Proof. vm_compute. reflexivity. Qed.
+
+(** ** the typed decoder (Wire/StepsTyped.v) *)
+From RB Require Import Wire.DecodeSoundLemmas Wire.StepsTyped Wire.StepsTypedProofs.
+Definition sx_ety : ety := EStruct [EDict BString (EVar (EBase BUint32)); EArray (EBase BUint16); EBase BUnixFd].
+Example sx_t_hyps : erase sx_ety = sx_ty /\ ewf sx_ety = true /\ (evars sx_ety <= 65)%nat /\ tweight sx_ety = 134
+  /\ edepth sx_ety = 3 /\ evars sx_ety = 1%nat.
+Proof. vm_compute. repeat split. lia. Qed.
+(* the accepted body fragment: 41 bytes in 12 steps (struct, 3 field rounds, dict, 1 round, key, variant, 1 validator step, u32,
+   array on the slice fast path, fd); big endian the u16 array has no fast path: 16 steps *)
+Example sx_t_ok : sx_res (unmarshal_ts 66 false sx_ety (sx_ctx sx_buf 3 2)) = (Ok (sx_val, 44), 12).
+Proof. vm_compute. reflexivity. Qed.
+Example sx_t_ok_be : sx_res (unmarshal_ts 66 true sx_ety (sx_ctx ([9; 9; 9] ++ spec_enc true 3 sx_val) 3 2)) = (Ok (sx_val, 44), 16).
+Proof. vm_compute. reflexivity. Qed.
+Example sx_t_cut : sx_res (unmarshal_ts 66 false sx_ety (sx_ctx (firstnN 36 sx_buf) 3 2)) = (Err, 10).
+Proof. vm_compute. reflexivity. Qed.
+Example sx_t_proj : fst (unmarshal_ts 66 false sx_ety (sx_ctx sx_buf 3 2)) = unmarshal_t 66 false sx_ety (sx_ctx sx_buf 3 2).
+Proof. vm_compute. reflexivity. Qed.
+(* this decoder has no nesting limit outside variants: the weight of a byte grows with the Rust type, and is reached -
+   200 tuples around one byte: 401 = tweight steps for 1 byte, 401 steps for no byte *)
+Fixpoint enest (k : nat) (e : ety) : ety := match k with O => e | S k' => EStruct [enest k' e] end.
+Example sx_t_tight : tweight (enest 200 (EBase BByte)) = 401
+  /\ snd (unmarshal_ts 66 false (enest 200 (EBase BByte)) (sx_ctx [7] 0 0)) = 401
+  /\ is_ok (fst (unmarshal_ts 66 false (enest 200 (EBase BByte)) (sx_ctx [7] 0 0))) = true
+  /\ sx_res (unmarshal_ts 66 false (enest 200 (EBase BByte)) (sx_ctx [] 0 0)) = (Err, 401).
+Proof. vm_compute. auto. Qed.
+(* a variant: the validator walks the value, then the decoder walks it again - Variant<((..(u8,)..),)> with 32 levels, signature
+   of 65 characters, 73 bytes: 1 + 65 + 65 steps; the last byte missing: the validator fails after 65 steps, nothing is decoded *)
+Definition sx_vbuf : list N := [65] ++ repeat 40 32 ++ [121] ++ repeat 41 32 ++ [0] ++ [0; 0; 0; 0; 0] ++ [7].
+Example sx_t_var : len sx_vbuf = 73 /\ tweight (EVar (enest 32 (EBase BByte))) = 194
+  /\ snd (unmarshal_ts 66 false (EVar (enest 32 (EBase BByte))) (sx_ctx sx_vbuf 0 0)) = 131
+  /\ is_ok (fst (unmarshal_ts 66 false (EVar (enest 32 (EBase BByte))) (sx_ctx sx_vbuf 0 0))) = true
+  /\ sx_res (unmarshal_ts 66 false (EVar (enest 32 (EBase BByte))) (sx_ctx (firstnN 72 sx_vbuf) 0 0)) = (Err, 66).
+Proof. vm_compute. auto. Qed.
